@@ -13,6 +13,6 @@ ASSUME FloorIrrelevant
 Rep(o) == o.saltlen = 16 /\ o.hashlen = 32 /\ o.t = 2
 ASSUME PrintT(ToJson([valid |-> {[obj |-> o, segs |-> Encode(o)] : o \in Objects},
                       mutants |-> UNION {{[obj |-> o, how |-> mu.how, segs |-> mu.segs, parses |-> Parse(mu.segs).ok] : mu \in Mutants(o)} : o \in {q \in Objects : Rep(q)}},
-                      costrows |-> CostRows, coststrings |-> CostStrings,
+                      costrows |-> CostRows, coststrings |-> CostStrings, lookalike_salts |-> LookAlikeSalts,
                       rehash |-> {[t |-> o.t, m |-> o.m, ops |-> ops, mem |-> mem, needs |-> NeedsRehash(o, ops, mem)] : o \in {q \in Objects : Rep(q) /\ q.alg = "argon2id"}, ops \in TCosts, mem \in MCosts}]))
 =============================================================================
